@@ -319,6 +319,8 @@ def gen_C18(ctx):
 
 def gen_C19(ctx):
     out = st_cmp(ctx, ctx.n(9000, 600000), ["S", "M", "P"], "c19-cmp")
+    # values reached through a history (build, into_builder, edits, build ...): equal to the value parsed from their string
+    out += st_builder(ctx, ctx.n(4000, 300000), ["S", "P", "M"], "c19-build", maxsteps=7)
     r = ctx.rng("c19-cmp3")
     for _ in range(ctx.n(3000, 200000)):
         vals = []
@@ -401,6 +403,20 @@ def gen_C16(ctx):
             for sh in ("S", "P"):
                 out.append(case("parsel %s %s" % (sh, hx(s)), "de-reference-long", s=s[:40], shape=sh, nomodel=True))
                 out.append(case("serde %s delen %s" % (sh, hx(s)), "de-long", s=s[:40], shape=sh, reference=len(out) - 1, nomodel=True))
+    # deserialize_in_place over an existing value: the result is what the string parses to, whatever was there
+    olds = ["pkg:golang/github.com/a/b@v1?arch=x86&checksum=sha1:00ff#cmd/tool", "pkg:maven/org.apache/commons@1", "pkg:npm/%40angular/cli", "pkg:t/n"]
+    news = ["pkg:npm/foo#", "pkg:npm/foo#/", "pkg:npm/foo#./..", "pkg:npm//cli", "pkg:maven//commons", "pkg:maven///commons@2", "pkg:t/n?", "pkg:t/n@",
+            "pkg:t/x/y@2?k=v#s", "pkg:t/n?checksum=md5:00", "pkg:t/n?arch=", "nope", "pkg:t/%80", "pkg:golang/x"]
+    rdip = ctx.rng("c16-dip")
+    for _ in range(ctx.n(300, 20000)):
+        t_ = rand_tuple(rdip, plain=rdip.chance(1, 2), ty=rdip.pick(KNOWN_TYPES))
+        news.append(spell(rdip, t_)[0])
+    for sh in ("S", "P"):
+        for new_ in news:
+            out.append(case("parse %s %s" % (sh, hx(new_)), "dip-reference", s=new_, shape=sh))
+            ref_ = len(out) - 1
+            for old_ in olds:
+                out.append(case("serde %s dip %s %s" % (sh, hx(old_), hx(new_)), "dip", s=new_, old=old_, shape=sh, reference=ref_))
     # values of serde's data model that are not JSON (serde::de::value deserializers): only string values may be
     # accepted, exactly like parsing; byte strings that spell a PURL, chars, numbers, units, sequences are refused
     sample = strings[::max(1, len(strings) // (400 if ctx.tier == "quick" else 20000))] + ["pkg:npm/foo@1.0", "pkg:t/n", "p", ""]
@@ -451,6 +467,24 @@ def cross_C17(ctx, cases, impl_by_cfg):
 
 
 GENS["C17"] = gen_C17
+
+# requests to other corners of the API, interleaved with a property's own stream in the second (re-ordered) run of the
+# implementation: the library keeps no state between calls, so every answer must be what it was in the first run
+NOISE = [
+    "parse P " + hx("pkg:cargo/serde@1.0.150"), "parse P " + hx("pkg:maven/junit@4.13"), "parse P " + hx("pkg:nuget/\u039f\u0394\u039f\u03a3"),
+    "parse P " + hx("pkg:nuget/\u039f\u03b4\u03bf\u03c2"), "parse P " + hx("pkg:pypi/\u00c4RGER.STRASSE"), "parse P " + hx("pkg:pypi/\u00c4rger.Stra\u00dfe"),
+    "parse P " + hx("pkg:golang/github.com/a/b@v1#cmd/tool"), "parse P " + hx("pkg:npm/%40angular/cli@16?checksum=sha1:AABB,md5:00ff&arch=x86#src"),
+    "parse S " + hx("pkg:t/n?checksum=sha1:AABB,md5:00ff#a/b"), "parse S " + hx("pkg:t/%80"), "parse S " + hx("nope"), "parse S " + hx("pkg:T/a//b/n@1?K=v#./x"),
+    "parse M " + hx("pkg:Gem/rake@13.0.6?platform=ruby"), "parse S " + hx("pkg:t/n?checksum=sha1:zz"), "parse P " + hx("pkg:rpm/x"),
+    "build S %s %s q:%s:%s" % (hx("t"), hx("n"), hx("checksum"), hx("SHA1:AB,md5:00")), "build S %s %s q:%s:%s" % (hx("t"), hx("n"), hx("checksum"), hx("sha1:0")),
+    "build CB %s %s -" % (hx("N!pm"), hx("n")), "build CO %s %s -" % (hx("Npm"), hx("")), "build S %s %s -" % (hx("not a type"), hx("name")),
+    "build P NuGet %s -" % hx("\u00c0\u03a3"), "build P NuGet %s -" % hx("\u00c0\u03c2"), "build P PyPI %s -" % hx("\u00c4rger_.Stra\u00dfe"),
+    "build P Maven %s -" % hx("junit"), "build P Golang %s ns:%s;sub:%s" % (hx("b"), hx("github.com/a"), hx("github.com/a/b/c")),
+    "build M %s %s ns:%s;ver:%s;q:%s:%s;sub:%s" % (hx("Npm"), hx("cli"), hx("@angular"), hx("16.0.0"), hx("Arch"), hx("x86"), hx("src/../lib")),
+    "comb Golang " + hx("github.com/go-chi/chi/v5"), "comb Maven " + hx("org.apache:commons"), "ptype " + hx("GoLang"), "ptype " + hx("golan\u0261"),
+    "cksum ins:%s:%s;raw:%s:%s;text;rt" % (hx("SHA1"), "00ff", hx("md5"), hx("AB")), "cksum of:%s;text;iter" % hx("b:,a:"),
+    "quals ins:%s:%s;ins:%s:%s;iter;len" % (hx("b"), hx("1"), hx("A"), hx("2")), "cmp S p/%s p/%s" % (hx("pkg:t/n?a=1"), hx("pkg:T/n?A=1")),
+]
 CONFIGS = {"C15": ["serde"], "C16": ["serde"], "C17": ["default", "package-type", "none", "serde"]}
 CROSS = {"C17": cross_C17}
 
